@@ -67,6 +67,40 @@ class DL:
         except Exception:
             return False
 
+    CONV_CALLEES = ("std::option::Option::<T>::and_then", "std::option::Option::<T>::map", "std::option::Option::<T>::copied",
+                    "std::option::Option::<T>::cloned", "std::clone::Clone::clone", "std::option::Option::<T>::or",
+                    "std::option::Option::<T>::filter", "text::Deadline::into_instant", "std::option::Option::<T>::as_ref",
+                    "std::ops::Try::branch", "std::ops::FromResidual::from_residual")
+
+    def is_conversion(self, fn, depth=0):
+        """A deadline conversion function: returns a deadline-typed value, takes only self / deadline-typed parameters,
+        and calls nothing but Option combinators, Deadline::into_instant and other conversion functions (so it can only
+        rewrap the deadline it was given: `match self.deadline { Some(d) => d.into_instant(), None => None }`)."""
+        memo = self.__dict__.setdefault("_conv", {})
+        if fn.path in memo:
+            return memo[fn.path]
+        memo[fn.path] = False
+        ok = bool(fn.mir and fn.sig and fn.kind != "Closure" and fn.module != "deadline_support" and
+                  is_deadline_ty(fn.sig.get("output")) and depth < 3)
+        if ok:
+            for i, t in enumerate(fn.sig["inputs"]):
+                if i == 0 and self._is_self_param(fn):
+                    continue
+                if not is_deadline_ty(t):
+                    ok = False
+        if ok:
+            for bb, t in fn.mir.calls():
+                c = fn.mir.callee(t) or {}
+                if c.get("path") in self.CONV_CALLEES:
+                    continue
+                g = self.prog.fn(c.get("path", "")) if c.get("local") else None
+                if g is not None and g is not fn and self.is_conversion(g, depth + 1):
+                    continue
+                ok = False
+                break
+        memo[fn.path] = ok
+        return ok
+
     def callee_deadline_positions(self, c):
         """Positions (0-based arg index) of Option<Instant> parameters of a local callee."""
         g = None
@@ -93,7 +127,7 @@ class DL:
             l = term[2]
             if l in info["params"]:
                 return "carrier"
-            if l <= m.arg_count:
+            if 1 <= l <= m.arg_count:
                 # another parameter (e.g. `self` handled through field)
                 return "unknown"
             if l in seen:
@@ -110,6 +144,9 @@ class DL:
                     res.add(self.derives(fn, m.resolve_rvalue(payload), seen))
             if res == {"carrier"}:
                 return "carrier"
+            if res == {"carrier", "none"} and self.is_conversion(fn) and self._reads_carrier_discr(fn):
+                # `match self.deadline { Some(d) => d.into_instant(), None => None }`: the None arm is the carrier's own None
+                return "carrier"
             for bad in ("none", "fresh", "unknown"):
                 if bad in res:
                     return bad
@@ -118,6 +155,8 @@ class DL:
             base = term[1]
             while base[0] in ("deref", "ref"):
                 base = base[1]
+            if base[0] == "downcast" and str(term[2]) == "0":
+                return self.derives(fn, base[1], seen)      # the payload of `Some(..)` of a deadline option
             if base[0] == "local" and base[2] == 1 and info["field"] and term[2] in self.deadline_structs.get(info["struct"], []):
                 return "carrier"
             return "unknown"
@@ -132,6 +171,15 @@ class DL:
         if k == "downcast":
             return self.derives(fn, term[1], seen)
         return "unknown"
+
+    def _reads_carrier_discr(self, fn):
+        m = fn.mir
+        for b in m.blocks:
+            for s_ in b["stmts"]:
+                if s_["k"] == "assign" and s_["rv"]["k"] == "discr":
+                    if self.derives(fn, m.resolve_place(s_["rv"]["p"])) == "carrier":
+                        return True
+        return False
 
     def _derives_call(self, fn, t, seen):
         m = fn.mir
@@ -154,6 +202,20 @@ class DL:
             return self.derives(fn, args[0], seen) if args else "unknown"
         if p == "text::Deadline::into_instant":
             return self.derives(fn, args[0], seen) if args else "unknown"
+        g = self.prog.fn(p) if c.get("local") and not c.get("trait") else None
+        if g is not None and self.is_conversion(g) and args:
+            # a conversion helper: `self.effective_deadline()` on the caller's own self, or conv(<carrier value>)
+            info = self.carriers.get(fn.path, {"params": [], "field": False})
+            ginfo = self.carriers.get(g.path)
+            a0 = args[0]
+            while a0 and a0[0] in ("ref", "deref"):
+                a0 = a0[1]
+            if ginfo and ginfo.get("field") and info.get("field") and a0 and a0[0] == "local" and a0[2] == 1 and \
+                    ginfo.get("struct") == info.get("struct"):
+                rets = [self.derives(g, ("local", None, 0))]
+                return "carrier" if rets == ["carrier"] else "unknown"
+            cls = {self.derives(fn, a, seen) for a in args}
+            return "carrier" if cls == {"carrier"} else "unknown"
         return "unknown"
 
 
@@ -261,6 +323,41 @@ def _mentions(term, pred):
     return False
 
 
+def _stores_param(prog, fn, param, seen, depth=0):
+    """Does `fn` store Some(<value built from its parameter local `param`>) into self.deadline, directly or through a
+    private self method that it hands such a value to?"""
+    m = fn.mir
+    ok = False
+    for b in m.blocks:
+        for s in b["stmts"]:
+            if s["k"] == "assign" and s["p"]["l"] == 1 and any(
+                    isinstance(e, dict) and e.get("name") == "deadline" for e in s["p"]["proj"]):
+                term = m.resolve_rvalue(s["rv"])
+                seen.append(term_str(term))
+                uses_param = _mentions(term, lambda x: x[0] == "local" and len(x) > 2 and x[2] == param)
+                is_some = isinstance(term, tuple) and term[0] == "aggregate" and term[1].endswith("Option::Some")
+                if uses_param and is_some:
+                    ok = True
+    if ok or depth >= 2:
+        return ok
+    for bb, t in m.calls():
+        c = m.callee(t) or {}
+        g = prog.fn(c.get("path", "")) if c.get("local") and not c.get("trait") else None
+        if g is None or not g.mir or g is fn or not t["args"]:
+            continue
+        a0 = m.resolve_operand(t["args"][0])
+        while a0 and a0[0] in ("ref", "deref"):
+            a0 = a0[1]
+        if not (a0 and a0[0] == "local" and a0[2] == 1):
+            continue                      # not a method on our own self
+        for i, a in enumerate(t["args"][1:], start=2):
+            term = m.resolve_operand(a)
+            if _mentions(term, lambda x: x[0] == "local" and len(x) > 2 and x[2] == param):
+                if _stores_param(prog, g, i, seen, depth + 1):
+                    return True
+    return False
+
+
 def rule_C2(prog):
     r = RuleResult("C2", "the builder stores what it is given (TextDiffConfig::deadline/timeout write a value built "
                          "from their parameter into self.deadline); every arm of Deadline::into_instant returns a value "
@@ -275,19 +372,8 @@ def rule_C2(prog):
                 r.find("text::TextDiffConfig::" + name, "missing", "builder method TextDiffConfig::%s not found" % name)
                 continue
             fn = fns[0]
-            m = fn.mir
-            ok = False
             seen = []
-            for b in m.blocks:
-                for s in b["stmts"]:
-                    if s["k"] == "assign" and s["p"]["l"] == 1 and any(
-                            isinstance(e, dict) and e.get("name") == "deadline" for e in s["p"]["proj"]):
-                        term = m.resolve_rvalue(s["rv"])
-                        seen.append(term_str(term))
-                        uses_param = _mentions(term, lambda x: x[0] == "local" and len(x) > 2 and x[2] == 2)
-                        is_some = isinstance(term, tuple) and term[0] == "aggregate" and term[1].endswith("Option::Some")
-                        if uses_param and is_some:
-                            ok = True
+            ok = _stores_param(prog, fn, 2, seen)
             r.ob(ok, "TextDiffConfig::%s: self.deadline = %s" % (name, seen))
             if not ok:
                 r.find(fn.path, "not-stored", "TextDiffConfig::%s does not store Some(<value built from its parameter>) "
@@ -644,6 +730,7 @@ def rule_C5(prog):
         if fn.impl and fn.impl.get("trait") in ("std::fmt::Debug", "std::clone::Clone"):
             continue
         m = fn.mir
+        conv = d.is_conversion(fn)
         dl_locals = {i for i, l in enumerate(m.locals) if is_deadline_ty(l["ty"])}
         if not dl_locals:
             continue
@@ -663,6 +750,11 @@ def rule_C5(prog):
                 if s["k"] != "assign":
                     continue
                 rv = s["rv"]
+                if rv["k"] == "discr" and is_dl_place(rv["p"]) and conv:
+                    # a conversion function may look at Some/None of the deadline it rewraps (an open-coded and_then)
+                    r.instances += 1
+                    r.ob(True, "%s (deadline conversion) unwraps its deadline at line %d" % (fn.path, s["line"]))
+                    continue
                 if rv["k"] == "discr" and is_dl_place(rv["p"]):
                     r.instances += 1
                     r.ob(False, "%s inspects discriminant of a deadline value at line %d" % (fn.path, s["line"]))
